@@ -354,7 +354,7 @@ FetchBlockEntry(t, s) ==
   ELSE LET m == Mark(s)
            s1 == RollIndent(SkipNB(s), m[3], -1, "BlockSequenceStart", m)
            r2 == SkipWsToEolR(t, s1, TRUE)
-           s2 == r2.s
+           s2 == IF r2.tabs /\ r2.s.err = "" THEN [r2.s EXCEPT !.tse = r2.s.pos] ELSE r2.s      \* no block collection may start after a tab
        IN IF s2.err # "" THEN s2
           ELSE IF r2.tabs /\ Peek(t, s2, 0) = "-" /\ Peek(t, s2, 1) \in BlankZ THEN Fail(s2, "'-' must be followed by a valid YAML whitespace")
           ELSE LET s3 == SkipWsToEol(t, s2, FALSE) IN
